@@ -107,7 +107,7 @@ func allocSource(c Case) (string, string) {
 			parts = append(parts, strings.ReplaceAll(siteSnippets[idx], "#", fmt.Sprint(i)))
 		}
 		src := strings.Join(parts, "\n") + "\n"
-		return src, "site=" + strings.Join(c.Args, "+")
+		return src, "site-snippets"
 	}
 	return "", ""
 }
@@ -149,6 +149,11 @@ func runAllocCase(c Case) (fails []fail, o allocObs) {
 		return []fail{{"internal/unknown-family", c.Family}}, allocObs{class: "internal"}
 	}
 	add := func(what, feat, msg string) {
+		// the counter is kept by the VM, not by the builtins: accounting defects are
+		// not keyed by the builtin's name (wrong-error / result-differs are)
+		if (what == "non-monotone" || what == "threshold-mismatch") && strings.HasPrefix(feat, "builtin=") {
+			feat = "builtin-call"
+		}
 		fails = append(fails, fail{"alloc/" + what + "/feat=" + feat, msg})
 	}
 	ref := runScript(src, runOpts{setAllocs: true, maxAllocs: -1, detail: true, budget: allocBudget})
